@@ -24,7 +24,6 @@ SPEC = dict(
                  'a pattern with a clause that fails to compile selects nothing and every other pattern of the same list (Message keys, default route, GETDATA, REMOVEDATA) selects what it selects alone; candidates that muscle compiles after all are left out and counted',
                  'the default route is the !SnKy strings last set paired by position with the !SnFl Messages last set, whichever SETPARAMETERS / REMOVEPARAMETERS brought them (keys only, filters only, both); filters without keys = no route',
                  'node names may hold backslashes (a\\ a\\zz b\\c); an escaped backslash is a literal backslash also when a live metacharacter follows it',
-                 'KNOWN on the tree of 7e88fae: a directly looked-up comma list unescapes its alternatives twice (classified apart: keys list_alternative_with_escaped_backslash|... and regress|list_alternative_with_escaped_backslash)',
                  'fewer filters than keys: the last filter is applied to the surplus keys by the code, REMOVEDATA\'s text says no filter: receivers on which the two readings differ are excluded and counted',
                  'a node visited twice by one traversal is reported (DoTraversal documents "the number of times cb was called" for nodes "encountered")',
                  'g++ 12 ASan/UBSan/LSan and valgrind memcheck report what they claim to report'],
@@ -33,7 +32,7 @@ SPEC = dict(
         Leg('route', 'h_route', 'asan', opts={'mode': 'route', 'msgs': '40', 'trav': '70'}, quick=1600, thorough=40000, workers=16, leaks=True),
         Leg('memcheck', 'h_route', 'plain', opts={'mode': 'route', 'msgs': '40', 'trav': '70'}, quick=16, thorough=320, workers=16, valgrind=True),
     ],
-    min_stats={'regress': {'regress_routed_messages': 25, 'regress_traversals': 1, 'regress_forgeries_checked': 2, 'regress_malformed_scenarios': 10, 'regress_escaped_backslash_scenarios': 8, 'regress_route_filter_scenarios': 6, 'regress_list_backslash_scenarios': 4},
+    min_stats={'regress': {'regress_routed_messages': 25, 'regress_traversals': 1, 'regress_forgeries_checked': 2, 'regress_malformed_scenarios': 10, 'regress_escaped_backslash_scenarios': 8, 'regress_route_filter_scenarios': 6, 'regress_list_backslash_scenarios': 5},
                'route': {'routed_messages': 50000, 'receiver_checks': 300000, 'deliveries_expected': 80000, 'bursts': 8000,
                          'msgs_with_2_patterns': 9000, 'msgs_with_3_patterns': 6000, 'msgs_with_4_patterns': 3500, 'msgs_with_5plus_patterns': 1500,
                          'multi_msgs_with_equal_depth_patterns': 14000, 'multi_msgs_two_depths': 10000, 'multi_msgs_three_plus_depths': 3000,
@@ -49,7 +48,7 @@ SPEC = dict(
                          'clauses_with_escaped_backslash_before_live_metachar': 10000, 'clauses_with_escaped_backslash_before_sole_live_metachar': 7000,
                          'default_route_filter_replaced_without_keys': 200, 'default_route_messages_after_filter_replaced_without_keys': 200,
                          'default_route_deliveries_expected_after_filter_replaced_without_keys': 60, 'default_route_filters_set_without_any_keys': 100,
-                         'default_route_keys_replaced_keeping_filters': 100, 'getdata_checks': 600, 'subscription_probes': 500, 'subscription_updates_expected': 120,
+                         'default_route_keys_replaced_keeping_filters': 100, 'msgs_with_list_alternative_holding_a_backslash': 300, 'getdata_checks': 600, 'subscription_probes': 500, 'subscription_updates_expected': 120,
                          'traversal_comparisons': 100000, 'traversal_nodes_visited': 150000, 'traversals_direct_lookup_at_every_level': 8000,
                          'traversals_iterated_at_every_level': 20000, 'traversals_mixing_lookup_and_iteration': 30000,
                          'traversals_with_lookup_level_and_visits': 20000, 'traversals_with_filters': 12000, 'traversals_with_several_patterns': 40000,
